@@ -28,8 +28,8 @@ def gen(rng, cid):
 def gen_sliding(rng, cid):
     k = rng.weighted([(2, 4), (3, 4), (4, 2)])
     maxdiff = rng.weighted([(1, 4), (2, 3), (4, 1)])
-    lower = rng.below(3)
-    lines = [f'case {cid} model=ssem kind=sliding maxdiff={maxdiff} lower={lower} seed={rng.below(1 << 30)} strat={rng.weighted([(0, 5), (1, 3), (2, 2)])}']
+    lower = rng.choice([0, 1, 2, 5])
+    lines = [f'case {cid} model=ssem kind=sliding maxdiff={maxdiff} lower={lower} viaset={rng.below(2)} seed={rng.below(1 << 30)} strat={rng.weighted([(0, 5), (1, 3), (2, 2)])}']
     for t in range(k):
         ops = []
         for _ in range(1 + rng.below(4)):
